@@ -45,7 +45,8 @@ func (h *c14Handler) run(ctx context.Context, s *BidiStream[[]byte, []byte]) err
 	return nil
 }
 
-func c14Run(proto int, explore bool) {
+func c14Run(proto int, explore bool, duplex ...bool) {
+	full := len(duplex) > 0 && duplex[0]
 	h := &c14Handler{recv: nondetChoice("handlerRecv", 4), send: nondetChoice("handlerSend", 3), fail: nondetBool("handlerFail")}
 	maxSends := bound("clientSends", 3, 4)
 	if explore {
@@ -55,6 +56,11 @@ func c14Run(proto int, explore bool) {
 	handler := NewBidiStreamHandler("/pkg.Svc/Method", h.run, stackHandlerOptions()...)
 	closes := 0
 	tr := &stackTransport{handler: handler, bodyCloses: &closes}
+	var httpClient HTTPClient = tr
+	if full {
+		// HTTP/2-like transport: the handler runs concurrently with the client
+		httpClient = &duplexTransport{handler: handler, bodyCloses: &closes}
+	}
 	// second program shape: the client reads the response to its end before
 	// closing its request side (possible when the handler does not wait for
 	// end-of-request); with a transport that does not close the request body
@@ -64,11 +70,11 @@ func c14Run(proto int, explore bool) {
 		receiveFirst = true
 		// (only when the handler reads everything the client sends: otherwise
 		// the surplus Sends block for ever by design of such a transport)
-		if h.recv == sends {
+		if h.recv == sends && !full {
 			tr.keepRequestOpen = nondetBool("transportKeepsRequestOpen")
 		}
 	}
-	client := NewClient[[]byte, []byte](tr, stackURL, stackClientOptions(proto)...)
+	client := NewClient[[]byte, []byte](httpClient, stackURL, stackClientOptions(proto)...)
 	stream := client.CallBidiStream(context.Background())
 	sendErrs := 0
 	for i := 0; i < sends; i++ {
@@ -128,7 +134,7 @@ func c14Run(proto int, explore bool) {
 
 // HarnessC14Sequences: deterministic schedule (a goroutine runs until it blocks).
 //
-//verif:harness property=C14 stubs=json,wire shard=proto:3
+//verif:harness property=C14 stubs=json,wire shard=proto:3 race=on
 func HarnessC14Sequences() {
 	c14Run(nondetChoice("proto", 3), false)
 }
@@ -138,7 +144,7 @@ func HarnessC14Sequences() {
 // sync.Once, sync.Pool, pipe operations); a state in which every goroutine is
 // blocked is reported as a deadlock.
 //
-//verif:harness property=C14 stubs=json,wire sched=explore preempt=2 preemptT=2 shard=proto:3
+//verif:harness property=C14 stubs=json,wire sched=explore preempt=2 preemptT=2 shard=proto:3 race=on
 func HarnessC14Interleavings() {
 	c14Run(nondetChoice("proto", 3), true)
 }
@@ -147,7 +153,7 @@ func HarnessC14Interleavings() {
 // is done from a symbolic (early) poll on; Send, Receive, CloseRequest and
 // CloseResponse must all return, and no library goroutine may remain.
 //
-//verif:harness property=C14 stubs=json,wire shard=proto:3
+//verif:harness property=C14 stubs=json,wire shard=proto:3 race=on
 func HarnessC14CancelledCall() {
 	proto := nondetChoice("proto", 3)
 	ctx := &pollCtx{kind: nondetChoice("kind", 2)}
@@ -181,4 +187,245 @@ func HarnessC14CancelledCall() {
 	_ = stream.CloseResponse()
 	reach("all operations of a cancelled call returned")
 	check(verifQuiesce() == 0, "no goroutine started by the library remains after a cancelled call")
+}
+
+// faultCodec is the stack codec with injectable failures for application
+// messages (the status message of the gRPC protocols is never failed).
+type faultCodec struct {
+	stackCodec
+	failMarshal, failUnmarshal bool
+}
+
+func (c *faultCodec) Marshal(m any) ([]byte, error) {
+	if _, ok := m.(*[]byte); ok && c.failMarshal {
+		return nil, errors.New("codec: cannot marshal")
+	}
+	return c.stackCodec.Marshal(m)
+}
+
+func (c *faultCodec) Unmarshal(data []byte, m any) error {
+	if _, ok := m.(*[]byte); ok && c.failUnmarshal {
+		return errors.New("codec: cannot unmarshal")
+	}
+	return c.stackCodec.Unmarshal(data, m)
+}
+
+type failCompressor struct{ xorCompressor }
+
+func (c *failCompressor) Write(p []byte) (int, error) { return 0, errors.New("compressor: cannot write") }
+
+// HarnessC14ClientSideFailures: calls that fail on the client before or
+// after the exchange - the request cannot be marshalled, cannot be
+// compressed, or the response cannot be unmarshalled - through the generated
+// call shapes (unary, server stream, client stream).  Every call returns (a
+// state in which all goroutines are blocked is a deadlock), reports an error,
+// leaves no goroutine behind, and closes the response body it obtained.
+//
+//verif:harness property=C14 stubs=json,wire shard=proto:3 race=on
+func HarnessC14ClientSideFailures() {
+	proto := nondetChoice("proto", 3)
+	shape := nondetChoice("shape", 3) // 0 unary, 1 server stream, 2 client stream
+	fault := nondetChoice("fault", 4) // 0 none, 1 marshal, 2 compress, 3 unmarshal
+	hopts := stackHandlerOptions(c08XorHandler("gzip"))
+	var handler *Handler
+	switch shape {
+	case 0:
+		handler = NewUnaryHandler("/pkg.Svc/Method", func(ctx context.Context, req *Request[[]byte]) (*Response[[]byte], error) {
+			out := append([]byte{}, *req.Msg...)
+			return NewResponse(&out), nil
+		}, hopts...)
+	case 1:
+		handler = NewServerStreamHandler("/pkg.Svc/Method", func(ctx context.Context, req *Request[[]byte], s *ServerStream[[]byte]) error {
+			out := append([]byte{}, *req.Msg...)
+			return s.Send(&out)
+		}, hopts...)
+	default:
+		handler = NewClientStreamHandler("/pkg.Svc/Method", func(ctx context.Context, s *ClientStream[[]byte]) (*Response[[]byte], error) {
+			var out []byte
+			for s.Receive() {
+				out = append(out, *s.Msg()...)
+			}
+			if err := s.Err(); err != nil {
+				return nil, err
+			}
+			return NewResponse(&out), nil
+		}, hopts...)
+	}
+	closes := 0
+	tr := &stackTransport{handler: handler, bodyCloses: &closes}
+	codec := &faultCodec{failMarshal: fault == 1, failUnmarshal: fault == 3}
+	copts := []ClientOption{WithCodec(codec), WithCompressMinBytes(1 << 20)}
+	if fault == 2 {
+		copts = []ClientOption{WithCodec(codec), WithCompressMinBytes(0),
+			WithAcceptCompression("gzip", func() Decompressor { return &xorDecompressor{} }, func() Compressor { return &failCompressor{} }),
+			WithSendCompression("gzip")}
+	}
+	switch proto {
+	case 1:
+		copts = append(copts, WithGRPC())
+	case 2:
+		copts = append(copts, WithGRPCWeb())
+	}
+	client := NewClient[[]byte, []byte](tr, stackURL, copts...)
+	in := []byte{7}
+	var got []byte
+	var err error
+	switch shape {
+	case 0:
+		var res *Response[[]byte]
+		res, err = client.CallUnary(context.Background(), NewRequest(&in))
+		if err == nil {
+			got = *res.Msg
+		}
+	case 1:
+		var stream *ServerStreamForClient[[]byte]
+		stream, err = client.CallServerStream(context.Background(), NewRequest(&in))
+		if err == nil {
+			n := 0
+			for stream.Receive() {
+				got = append(got, *stream.Msg()...)
+				n++
+				if n > 2 {
+					check(false, "the receive loop terminates")
+					break
+				}
+			}
+			err = stream.Err()
+			cerr := stream.Close()
+			if err == nil {
+				err = cerr
+			}
+		}
+	default:
+		stream := client.CallClientStream(context.Background())
+		serr := stream.Send(&in)
+		var res *Response[[]byte]
+		res, err = stream.CloseAndReceive()
+		if err == nil {
+			got = *res.Msg
+		}
+		if serr != nil {
+			// the failure was reported by Send; what CloseAndReceive then
+			// returns is not constrained by the property
+			check(!errors.Is(serr, io.EOF), "a Send that failed on the client reports that failure, not end-of-stream")
+			err = serr
+		}
+	}
+	if fault == 0 {
+		check(err == nil && bytesEq(got, in), "without an injected failure the call succeeds")
+	} else {
+		check(err != nil, "a call that failed on the client reports an error")
+		if err != nil {
+			ce, ok := asError(err)
+			check(ok && ce.Code() != 0, "the error of a call that failed on the client is coded")
+		}
+	}
+	if tr.served > 0 {
+		check(closes >= 1, "the HTTP response body has been closed")
+	}
+	check(verifQuiesce() == 0, "no goroutine started by the library remains")
+}
+
+// HarnessC14FullDuplex: the same program families over the full-duplex
+// (HTTP/2-like) transport of duplex.go: the handler runs concurrently with
+// the client's Sends, so "the handler finished while the client is still
+// sending" and "the client receives before it closes its side" are real
+// interleavings, explored by the scheduler with the happens-before monitor on.
+//
+//verif:harness property=C14 stubs=json,wire sched=explore preempt=1 preemptT=2 shard=proto:3 race=on
+func HarnessC14FullDuplex() {
+	c14Run(nondetChoice("proto", 3), true, true)
+}
+
+// HarnessC14PingPong: the bidi usage only a full-duplex transport allows: k
+// rounds of Send then Receive against an echoing handler, then CloseRequest
+// and a final Receive that must report the clean end; or the handler stops
+// echoing after `stop` rounds (returning nil or an error) while the client
+// keeps going: the client's next Receive reports that outcome, later Sends
+// fail with an error wrapping io.EOF rather than block, and nothing is left
+// behind.
+//
+//verif:harness property=C14 stubs=json,wire sched=explore preempt=1 preemptT=2 shard=proto:3 race=on
+func HarnessC14PingPong() {
+	proto := nondetChoice("proto", 3)
+	rounds := 1 + nondetChoice("rounds", bound("pingPongRounds", 2, 3))
+	stop := nondetChoice("handlerStopsAfter", 4) // 3 = never
+	fail := nondetBool("handlerFail")
+	echoed := 0
+	sawEOF := false
+	handler := NewBidiStreamHandler("/pkg.Svc/Method", func(ctx context.Context, s *BidiStream[[]byte, []byte]) error {
+		for stop == 3 || echoed < stop {
+			m, err := s.Receive()
+			if err != nil {
+				if errors.Is(err, io.EOF) {
+					sawEOF = true
+					return nil
+				}
+				return err
+			}
+			out := []byte{(*m)[0] + 1}
+			if err := s.Send(&out); err != nil {
+				return err
+			}
+			echoed++
+		}
+		if fail {
+			return NewError(CodeAborted, errors.New("handler failed"))
+		}
+		return nil
+	}, stackHandlerOptions()...)
+	closes := 0
+	client := NewClient[[]byte, []byte](&duplexTransport{handler: handler, bodyCloses: &closes}, stackURL, stackClientOptions(proto)...)
+	stream := client.CallBidiStream(context.Background())
+	var rerr error
+	got := 0
+	for i := 0; i < rounds && rerr == nil; i++ {
+		m := []byte{byte(0x10 + i)}
+		if err := stream.Send(&m); err != nil {
+			check(errors.Is(err, io.EOF), "a Send that fails after the handler finished wraps io.EOF")
+			check(stop != 3 && i >= stop, "Sends only fail once the handler has stopped reading")
+		}
+		r, err := stream.Receive()
+		if err != nil {
+			rerr = err
+			break
+		}
+		check(len(*r) == 1 && (*r)[0] == byte(0x11+i), "each echo answers the message just sent")
+		got++
+	}
+	check(stream.CloseRequest() == nil, "closing the request side succeeds")
+	for rerr == nil {
+		_, err := stream.Receive()
+		if err != nil {
+			rerr = err
+			break
+		}
+		got++
+		if got > rounds+1 {
+			check(false, "the receive loop terminates")
+			return
+		}
+	}
+	early := stop != 3 && stop < rounds
+	switch {
+	case early && fail:
+		check(CodeOf(rerr) == CodeAborted, "Receive reports the handler's actual outcome (its error)")
+	case stop != 3 && stop <= rounds && fail:
+		check(CodeOf(rerr) == CodeAborted, "Receive reports the handler's actual outcome (its error)")
+	default:
+		check(errors.Is(rerr, io.EOF), "Receive reports the handler's actual outcome (clean end)")
+	}
+	if stop == 3 || stop > rounds {
+		check(got == rounds && sawEOF, "every round is echoed and the handler sees end-of-request once the client closes its side")
+	} else {
+		check(got == stop, "exactly the echoes the handler produced are delivered")
+	}
+	_, again := stream.Receive()
+	check(again != nil, "once Receive has reported an error it keeps reporting one")
+	m := []byte{9}
+	lateErr := stream.Send(&m)
+	check(lateErr != nil && errors.Is(lateErr, io.EOF), "a Send after the call finished fails with an error wrapping io.EOF instead of blocking")
+	check(stream.CloseResponse() == nil, "closing the response side succeeds")
+	check(closes >= 1, "the HTTP response body has been closed")
+	check(verifQuiesce() == 0, "no goroutine started by the library remains")
 }
